@@ -138,7 +138,7 @@ def mutate (s : DState) (c : Chain) (ws : List String) (budget : Option Nat) : O
       pure ({ s with boot := none }, "unmodelled")
     else
     let (r, c') := addGroup c g
-    pure ({ s with boot := some (.alive c') }, addResStr r)
+    pure ({ s with boot := some (.alive c') }, if r = .ok then "ok" else "rejected")
   | ["rmlast"], none =>
     let (r, c') := remove c c.last
     some ({ s with boot := some (.alive c') }, toString r ++ " " ++ status c')
